@@ -483,6 +483,20 @@ Section SV.
     - apply Rv.
   Qed.
 
+  Lemma s_push_ok o m v : sref o m -> sref (s_push Cap o v) (if length m + 1 <=? Cap then m ++ [Some v] else m).
+  Proof.
+    intros HA. pose proof HA as ((As & Al & Av) & AL). unfold s_push. rewrite <- As.
+    destruct (Nat.ltb_spec Cap (ssize o + 1)) as [H|H].
+    - replace (ssize o + 1 <=? Cap) with false by (symmetry; apply Nat.leb_gt; lia). exact HA.
+    - replace (ssize o + 1 <=? Cap) with true by (symmetry; apply Nat.leb_le; lia).
+      pose proof (s_resize_fits o m (ssize o + 1) H HA) as K. rewrite As, m_resize_grow1 in K. rewrite As.
+      set (o1 := s_resize Cap o (length m + 1)) in *.
+      assert (E1 : ssize o1 = length m + 1) by (destruct K as ((K1 & _) & _); rewrite K1, app_length; simpl; lia).
+      pose proof (s_write_ok o1 _ (ssize o1 - 1) v K ltac:(lia)) as W.
+      replace (ssize o1 - 1) with (length m) in W by lia. rewrite upd_last in W.
+      replace (ssize o1 - 1) with (length m) by lia. exact W.
+  Qed.
+
   Lemma SI_step s m o : SI s m -> SI (sstep Cap s o) (smstep m o).
   Proof.
     destruct s as [a b], m as [ma mb]. intros [HA HB]. cbn [fst snd] in *.
@@ -492,16 +506,7 @@ Section SV.
     - split; [|exact HB]. unfold fits, s_sized. destruct (Nat.leb_spec n Cap) as [Hf|Hf].
       + pose proof (s_resize_fits _ _ n Hf sref_default) as K. now rewrite m_resize_nil in K.
       + rewrite s_resize_refused by lia. apply sref_default.
-    - split; [|exact HB]. unfold s_push, fits. rewrite <- As.
-      destruct (Nat.ltb_spec Cap (ssize a + 1)) as [H|H].
-      + replace (ssize a + 1 <=? Cap) with false by (symmetry; apply Nat.leb_gt; lia). exact HA.
-      + replace (ssize a + 1 <=? Cap) with true by (symmetry; apply Nat.leb_le; lia).
-        pose proof (s_resize_fits a ma (ssize a + 1) H HA) as K. rewrite As, m_resize_grow1 in K. rewrite As.
-        set (o1 := s_resize Cap a (length ma + 1)) in *.
-        assert (E1 : ssize o1 = length ma + 1) by (destruct K as ((K1 & _) & _); rewrite K1, app_length; simpl; lia).
-        pose proof (s_write_ok o1 _ (ssize o1 - 1) v K ltac:(lia)) as W.
-        replace (ssize o1 - 1) with (length ma) in W by lia. rewrite upd_last in W.
-        replace (ssize o1 - 1) with (length ma) by lia. exact W.
+    - split; [|exact HB]. unfold fits. exact (s_push_ok a ma v HA).
     - split; [now apply s_resize_ok | exact HB].
     - rewrite <- As. destruct (Nat.ltb_spec i (ssize a)) as [H|H]; cbn [andb].
       + replace (i <? Cap) with true by (symmetry; apply Nat.ltb_lt; lia). cbn [fst snd].
@@ -640,3 +645,97 @@ Proof.
   destruct (ref_full _ _ _ _ RA FA) as (A1 & A2 & A3). destruct (ref_full _ _ _ _ RB FB) as (B1 & B2 & B3).
   unfold scontents. split; (split; [assumption|]; split; [assumption|]; split; [lia | assumption]).
 Qed.
+
+(* ---------- nmtools::small_vector (default configuration) ---------- *)
+Section SMALL.
+  Variable DIM : nat.
+  Definition sm_inv (x : smallv) (l : list Z) : Prop :=
+    match x with SmS o => sref DIM o (map Some l) | SmD d => d = l end.
+
+  Lemma F2_some_map (l : list Z) : Forall2 is_some_of (map Some l) l.
+  Proof. induction l; simpl; constructor; auto. reflexivity. Qed.
+  Lemma cellz_val l : map cellz (map Val l) = l.
+  Proof. induction l; simpl; congruence. Qed.
+
+  Lemma sref_contents o l : sref DIM o (map Some l) ->
+    map cellz (firstn (ssize o) (sbuf o)) = l /\ ssize o = length l /\ ssize o <= DIM.
+  Proof.
+    intros (R & L). destruct (ref_full _ _ _ _ R (F2_some_map l)) as (E & E2 & E3).
+    rewrite E, cellz_val. repeat split; auto; lia.
+  Qed.
+  Lemma sm_inv_contents x l : sm_inv x l -> sm_contents x = l /\ sm_size x = length l.
+  Proof.
+    destruct x as [o|d]; simpl; intros H; [|subst; auto].
+    destruct (sref_contents o l H) as (E & E2 & _). unfold scontents. auto.
+  Qed.
+
+  Lemma map_repeat {A B} (f : A -> B) x n : map f (repeat x n) = repeat (f x) n.
+  Proof. induction n; simpl; congruence. Qed.
+  Lemma map_Some_resize (l : list Z) n :
+    m_resize (map Some l) n = map Some (firstn n l ++ repeat 0%Z (n - length l)).
+  Proof. unfold m_resize. now rewrite map_app, firstn_map, map_repeat, map_length. Qed.
+  Lemma upd_map {A B} (f : A -> B) (l : list A) : forall i x, upd (map f l) i (f x) = map f (upd l i x).
+  Proof. induction l as [|h l IH]; intros [|i] x; simpl; auto. now rewrite IH. Qed.
+
+  Lemma sm_resize_ok x l n : sm_inv x l ->
+    sm_inv (sm_resize DIM x n) (firstn n l ++ repeat 0%Z (n - length l)).
+  Proof.
+    destruct x as [o|d]; simpl; intros H; [|now subst].
+    destruct (Nat.leb_spec n DIM) as [Hn|Hn]; simpl.
+    - rewrite <- map_Some_resize. now apply s_resize_fits.
+    - destruct (sref_contents o l H) as (E & E2 & E3). rewrite E, E2. now rewrite firstn_all2 by lia.
+  Qed.
+  Lemma sm_write_ok x l i v : sm_inv x l -> i < length l -> sm_inv (sm_write x i v) (upd l i v).
+  Proof.
+    destruct x as [o|d]; simpl; intros H Hi; [|now subst].
+    destruct (sref_contents o l H) as (_ & E2 & _).
+    rewrite <- (upd_map Some). apply s_write_ok; [assumption | lia].
+  Qed.
+  Lemma sm_push_ok x l v : sm_inv x l -> sm_inv (sm_push DIM x v) (l ++ [v]).
+  Proof.
+    intros H. destruct (sm_inv_contents x l H) as (_ & Hs). unfold sm_push. rewrite Hs.
+    destruct (Nat.eqb_spec (length l) DIM) as [E|E].
+    - pose proof (sm_resize_ok x l (DIM + 1) H) as K.
+      rewrite firstn_all2 in K by lia. replace (DIM + 1 - length l) with 1 in K by lia. simpl repeat in K.
+      pose proof (sm_write_ok _ _ DIM v K ltac:(rewrite app_length; simpl; lia)) as W.
+      replace (upd (l ++ [0%Z]) DIM v) with (l ++ [v]) in W by (rewrite <- E; now rewrite upd_last). exact W.
+    - destruct x as [o|d]; simpl in *; [|now subst].
+      destruct (sref_contents o l H) as (_ & E2 & E3).
+      pose proof (s_push_ok DIM o (map Some l) v H) as K. rewrite map_length in K.
+      replace (length l + 1 <=? DIM) with true in K by (symmetry; apply Nat.leb_le; lia).
+      now rewrite map_app.
+  Qed.
+  Lemma sm_sized_ok n : sm_inv (sm_sized DIM n) (repeat 0%Z n).
+  Proof.
+    unfold sm_sized. destruct (Nat.ltb_spec n DIM) as [H|H]; simpl; [|reflexivity].
+    pose proof (s_resize_fits DIM (s_default DIM) [] n ltac:(lia) (sref_default DIM)) as K.
+    rewrite m_resize_nil in K. now rewrite map_repeat.
+  Qed.
+
+  Definition SMI (s : smallv * smallv) (l : list Z * list Z) : Prop := sm_inv (fst s) (fst l) /\ sm_inv (snd s) (snd l).
+  Lemma SMI_step s l o : SMI s l -> SMI (Containers.smstep DIM s o) (lstep Z 0%Z 0%Z (fun z => z) None l o).
+  Proof.
+    destruct s as [a b], l as [la lb]. intros [HA HB]. cbn [fst snd] in *.
+    destruct (sm_inv_contents a la HA) as (_ & Hs).
+    destruct o; unfold Containers.smstep, lstep, l_resize; cbn [fits fst snd]; unfold SMI; cbn [fst snd].
+    - split; [apply (sref_default DIM) | exact HB].
+    - split; [apply sm_sized_ok | exact HB].
+    - split; [now apply sm_push_ok | exact HB].
+    - split; [now apply sm_resize_ok | exact HB].
+    - rewrite Hs. destruct (Nat.ltb_spec i (length la)); cbn [fst snd]; [split; [now apply sm_write_ok | exact HB] | split; assumption].
+    - split; exact HA.
+    - split; exact HA.
+    - split; exact HB.
+    - split; assumption.
+    - split; assumption.
+  Qed.
+  Lemma small_vector_refinement ops :
+    sm_contents (fst (smrun DIM ops)) = fst (std_run None ops) /\ sm_contents (snd (smrun DIM ops)) = snd (std_run None ops) /\
+    sm_size (fst (smrun DIM ops)) = length (fst (std_run None ops)) /\ sm_size (snd (smrun DIM ops)) = length (snd (std_run None ops)).
+  Proof.
+    assert (H : SMI (smrun DIM ops) (std_run None ops)).
+    { unfold smrun, std_run, lrun. apply (fold_inv SMI (Containers.smstep DIM) (lstep Z 0%Z 0%Z (fun z => z) None) SMI_step).
+      split; apply (sref_default DIM). }
+    destruct H as [HA HB]. destruct (sm_inv_contents _ _ HA), (sm_inv_contents _ _ HB). auto.
+  Qed.
+End SMALL.
